@@ -361,10 +361,19 @@ fn print_xml(
 			get_value_type(literal),
 		))),
 
-		(SimpleStringLiteral { literal }, _) => Box::new(once(format!(
-			"<SimpleStringLiteral src={:?} />",
-			get_source(literal).trim_matches('"')
-		))),
+		(SimpleStringLiteral { literal }, _) =>
+		{
+			// Strip the delimiters, but not a quote that is part of the string.
+			let source = get_source(literal);
+			let inner = source
+				.strip_prefix('"')
+				.and_then(|x| x.strip_suffix('"'))
+				.unwrap_or(source);
+			Box::new(once(format!(
+				"<SimpleStringLiteral src={:?} />",
+				inner
+			)))
+		}
 
 		(CompositeStringLiteral { start }, [_, _, _, _, EndOfSpan { end }]) =>
 		{
